@@ -31,6 +31,39 @@ type LossCase struct {
 	// ShareT (C13): both rounds pass the same (untracked) target tensor object; the first round's
 	// back-propagation lies between its two uses
 	ShareT bool `json:"share_t,omitempty"`
+	// Multi (C13, leaf predictions only; 0 or 8..16): that many further loss graphs are built over
+	// the same prediction leaf before the first back-propagation; all are back-propagated in
+	// turn and only then is the gradient read: it is (Multi+1) times the single derivative
+	Multi int `json:"multi,omitempty"`
+	// Aged (0 or 17..40): the loss object first serves that many ordinary batches (predictions
+	// and targets strictly inside (0,1)), each checked, before the case proper
+	Aged int `json:"aged,omitempty"`
+}
+
+// ageLoss makes the loss object compute n ordinary batches, each compared with the definition.
+func ageLoss(kind string, compute func(p, t tensor.Tensor) (tensor.Tensor, error), n int) *Failure {
+	shape := []int{3}
+	if kind == "ce" {
+		shape = []int{2, 2}
+	}
+	m := ref.Prod(shape)
+	for k := 0; k < n && k < 64; k++ {
+		pv, tv := make([]float64, m), make([]float64, m)
+		for i := range pv {
+			pv[i] = 0.1 + 0.8*float64((i*7+k*3)%11)/11
+			tv[i] = 0.05 + 0.9*float64((i*5+k)%7)/7
+		}
+		want, _ := refLoss(nil, kind, ref.FromVals(shape, pv), ref.FromVals(shape, tv))
+		l, err := compute(lib.MustNew(shape, pv, k%2 == 0), lib.MustNew(shape, tv, false))
+		if err != nil {
+			return failf("%s.Compute number %d on one object rejected an ordinary batch: %v", kind, k+1, err)
+		}
+		_, lv, err := lib.Read(l)
+		if err != nil || len(lv) != 1 || math.IsNaN(lv[0]) || math.Abs(lv[0]-want.V) > 1e-9*(math.Abs(want.V)+1e-12) {
+			return failf("%s.Compute number %d on one object = %v, defined value %v", kind, k+1, lv, want.V)
+		}
+	}
+	return nil
 }
 
 func init() {
@@ -193,11 +226,22 @@ func genC12(t *rapid.T) LossCase {
 	if rapid.IntRange(0, 2).Draw(t, "otherobject") == 0 {
 		other = rapid.IntRange(1, 2).Draw(t, "otherwhen")
 	}
+	if rapid.IntRange(0, 9).Draw(t, "subnormal") == 0 {
+		// differences that are zero or subnormal throughout (the squares underflow to 0)
+		for i := range p {
+			p[i] = rapid.SampledFrom([]float64{0, 5e-324, 1e-310, -1e-310, 2e-308, 1e-320}).Draw(t, "psub")
+			tg[i] = rapid.SampledFrom([]float64{0, 0, 5e-324, 1e-310}).Draw(t, "tsub")
+		}
+	}
+	aged := 0
+	if rapid.IntRange(0, 7).Draw(t, "aged") == 0 {
+		aged = rapid.IntRange(17, 40).Draw(t, "agedn")
+	}
 	same := rapid.IntRange(0, 7).Draw(t, "sameobject") == 0
 	if same {
 		tg = append([]float64{}, p...)
 	}
-	return LossCase{Kind: kind, Up: prog.Program{Leaves: []prog.Leaf{{Shape: s, Vals: p, Tracked: rapid.Bool().Draw(t, "ptracked")}}}, T: tg, TTr: rapid.Bool().Draw(t, "ttracked"), Same: same, Other: other}
+	return LossCase{Kind: kind, Up: prog.Program{Leaves: []prog.Leaf{{Shape: s, Vals: p, Tracked: rapid.Bool().Draw(t, "ptracked")}}}, T: tg, TTr: rapid.Bool().Draw(t, "ttracked"), Same: same, Other: other, Aged: aged}
 }
 
 func checkC12(c LossCase) *Failure {
@@ -216,6 +260,12 @@ func checkC12(c LossCase) *Failure {
 	scale := math.Abs(want.V) + 1e-12
 	vals := []float64{}
 	compute := newLossWithOther(c.Kind, c.Other)
+	if c.Aged > 0 {
+		if f := ageLoss(c.Kind, compute, c.Aged); f != nil {
+			return f
+		}
+		evid.Class("C12.object_served_17_or_more_batches_before")
+	}
 	// the same loss object first serves a larger and a smaller batch (a training loop's full
 	// batches and short last batch); both are checked against the definition as well
 	for _, rep := range []int{3, 0} {
@@ -346,6 +396,19 @@ func genC13(t *rapid.T) LossCase {
 	c.T = tg
 	if rapid.IntRange(0, 2).Draw(t, "leafpred") == 0 {
 		p, _ := drawProb(t, n, "p", false)
+		if rapid.IntRange(0, 5).Draw(t, "boundneighbours") == 0 {
+			// the floating-point neighbours of the clipping bounds, on either side
+			for i := range p {
+				if rapid.IntRange(0, 1).Draw(t, "bn") == 0 {
+					b := rapid.SampledFrom([]float64{lossEps, 1 - lossEps}).Draw(t, "bnbound")
+					dir := math.Inf(1 - 2*rapid.IntRange(0, 1).Draw(t, "bndir"))
+					for k := rapid.SampledFrom([]int{1, 1, 2, 3, 17, 300, 399}).Draw(t, "bnsteps"); k > 0 && k < 400; k-- {
+						b = math.Nextafter(b, dir)
+					}
+					p[i] = b
+				}
+			}
+		}
 		if rapid.Bool().Draw(t, "nearsaturated") {
 			// strictly between 0 and 1 yet outside [1e-12, 1-1e-12]: clipped, zero gradient
 			for i := range p {
@@ -362,6 +425,9 @@ func genC13(t *rapid.T) LossCase {
 			}
 		}
 		c.Up = prog.Program{Leaves: []prog.Leaf{{Shape: s, Vals: p, Tracked: rapid.IntRange(0, 4).Draw(t, "ptracked") > 0}}}
+		if n <= 100 && rapid.IntRange(0, 5).Draw(t, "multi") == 0 {
+			c.Multi = rapid.IntRange(8, 16).Draw(t, "multin")
+		}
 		return c
 	}
 	// upstream program: smooth shape-preserving ops over leaves in (0,1)
@@ -465,7 +531,7 @@ func checkC13(c LossCase) *Failure {
 		}
 	}
 	L, gap := refLoss(ctx, c.Kind, p, ref.FromVals(p.Shape, c.T))
-	if c.Kind != "mse" && gap < 1e-13 {
+	if c.Kind != "mse" && gap == 0 {
 		// a prediction (numerically) at a clipping bound: excluded by the quantifier
 		evid.Discard("prediction_at_clipping_bound")
 		return nil
@@ -519,8 +585,25 @@ func c13Round(c LossCase, compute func(p, t tensor.Tensor) (tensor.Tensor, error
 	if err != nil {
 		return failf("round %d: %s.Compute rejected inputs of shape %v: %v", round, c.Kind, p.Shape, err)
 	}
+	mult := 1.0
+	var more []tensor.Tensor
+	if len(c.Up.Nodes) == 0 && c.Multi > 0 && c.Multi <= 64 {
+		for k := 0; k < c.Multi; k++ {
+			lk, err := compute(lv[pid], tg)
+			if err != nil {
+				return failf("round %d: %s.Compute number %d on the same inputs failed: %v", round, c.Kind, k+2, err)
+			}
+			more = append(more, lk)
+		}
+		mult = float64(c.Multi + 1)
+	}
 	if err := tensor.BackPropagate(l); err != nil {
 		return failf("BackPropagate(%s loss) returned error: %v", c.Kind, err)
+	}
+	for k, lk := range more {
+		if err := tensor.BackPropagate(lk); err != nil {
+			return failf("BackPropagate of loss graph %d over the same prediction leaf returned error: %v", k+2, err)
+		}
 	}
 	if tg.Gradient() != nil {
 		return failf("untracked targets received a gradient")
@@ -559,8 +642,8 @@ func c13Round(c LossCase, compute func(p, t tensor.Tensor) (tensor.Tensor, error
 			if want == nil {
 				continue
 			}
-			if !closeTo(gv[k], want[k], wsc[k]) {
-				return failf("%s: gradient of value %d [%d] = %v, analytic derivative = %v", c.Kind, i, k, gv[k], want[k])
+			if !closeTo(gv[k], mult*want[k], mult*wsc[k]) {
+				return failf("%s: gradient of value %d [%d] = %v, analytic derivative = %v (x %v loss graphs over this leaf)", c.Kind, i, k, gv[k], want[k], mult)
 			}
 		}
 		if i == pid {
@@ -580,6 +663,7 @@ func c13Round(c LossCase, compute func(p, t tensor.Tensor) (tensor.Tensor, error
 				default:
 					cf = -(tv / pv) / N
 				}
+				cf *= mult
 				if clipped && gv[k] != 0 {
 					return failf("%s: clipped prediction %v received gradient %v, expected a finite zero", c.Kind, pv, gv[k])
 				}
@@ -587,7 +671,7 @@ func c13Round(c LossCase, compute func(p, t tensor.Tensor) (tensor.Tensor, error
 				if wsc != nil {
 					sc = wsc[k]
 				}
-				if math.Abs(gv[k]-cf) > 1e-9*math.Max(1, math.Abs(cf))+1e-9*sc {
+				if math.Abs(gv[k]-cf) > 1e-9*math.Max(1, math.Abs(cf))+1e-9*sc*mult {
 					return failf("%s: prediction gradient [%d] = %v, closed form = %v (p=%v t=%v N=%v)", c.Kind, k, gv[k], cf, pv, tv, N)
 				}
 			}
@@ -614,6 +698,9 @@ func c13Classify(c LossCase, tr []bool, pid int, clippedSeen bool) *Failure {
 	}
 	if c.ShareT {
 		evid.Class("C13.target_object_shared_by_both_rounds")
+	}
+	if c.Multi > 0 && len(c.Up.Nodes) == 0 {
+		evid.Class("C13.nine_or_more_loss_graphs_over_one_leaf")
 	}
 	nt := false
 	if len(c.Up.Nodes) > 0 && tr[pid] {
